@@ -71,6 +71,8 @@ impl<Consumer> Pool<Consumer>
         let index = thread_rng().gen_range(0..pool_size);
         #[cfg(cached_verif)]
         crate::cache::verif::log_oracle(crate::cache::verif::Oracle::PoolIndex(index));
+        #[cfg(cached_verif)]
+        let _verif_lock = crate::cache::verif::lock_scope("PoolBuffer");
         self.buffers[index].write().add(key_hash);
     }
 }
